@@ -52,14 +52,32 @@ type c08Pay struct {
 	At int `json:"at"`
 }
 
-// c08Scn is one exploration space: a payment batch plus the fault budget.
+// c08Scn is one exploration space: a payment batch plus the budgets of the search.
 type c08Scn struct {
-	Name   string   `json:"name"`
-	Pays   []c08Pay `json:"pays"`
-	Faults int      `json:"faults"` // fault events (cut / restart) allowed
-	Dev    int      `json:"dev"`    // deviation bound of the DFS
+	Name string   `json:"name"`
+	Pays []c08Pay `json:"pays"`
+	// Dev: schedule deviations allowed (anything but the default continuation that
+	// is not a fault: out-of-order delivery, early tick, early hold resolution,
+	// freezing / early unfreezing of a wire).
+	Dev int `json:"dev"`
+	// Faults: fault events allowed (cut:AB, cut:BC, restart Bob).
+	Faults int `json:"faults"`
+	// Total bounds Dev+Faults used together (0 = Dev+Faults, i.e. the full product).
+	Total int `json:"total,omitempty"`
+	// Freeze adds the "slow wire" deviation: fz:W holds back every message of one
+	// directed wire until un:W (default once nothing else can happen).
+	Freeze bool `json:"freeze,omitempty"`
+	// OnlyFreeze restricts schedule deviations to fz/un.
+	OnlyFreeze bool `json:"only_freeze,omitempty"`
 	// NoRestart removes the "restart Bob" event from the alphabet.
 	NoRestart bool `json:"no_restart,omitempty"`
+}
+
+func (s c08Scn) total() int {
+	if s.Total > 0 {
+		return s.Total
+	}
+	return s.Dev + s.Faults
 }
 
 // ---------------------------------------------------------------------------------
@@ -189,6 +207,8 @@ type c08World struct {
 
 	pays       []*c08PayState
 	faultsUsed int
+	devUsed    int
+	frozen     int // wire held back by fz (-1: none)
 	idle       int // consecutive idle ticks with empty wires
 	events     int
 	hist       []string
@@ -227,7 +247,7 @@ func c08Preimage(k int) lntypes.Preimage {
 
 // newC08World builds the network. Must be called inside a synctest bubble.
 func newC08World(t *testing.T, scn c08Scn, dir string, info func(string)) (w *c08World, err error) {
-	w = &c08World{t: t, scn: scn, info: info}
+	w = &c08World{t: t, scn: scn, info: info, frozen: -1}
 	w.tb = &c08TB{T: t, dir: dir}
 	defer func() {
 		if v := recover(); v != nil {
@@ -379,6 +399,19 @@ func (w *c08World) intercept(si int) {
 		w.mu.Unlock()
 		return true, nil
 	})
+}
+
+// deliverable counts the messages that are not on a frozen wire.
+func (w *c08World) deliverable() int {
+	w.mu.Lock()
+	defer w.mu.Unlock()
+	n := 0
+	for i := range w.wires {
+		if i != w.frozen {
+			n += len(w.wires[i])
+		}
+	}
+	return n
 }
 
 func (w *c08World) pending() int {
@@ -829,6 +862,10 @@ func (w *c08World) restartBob() error {
 }
 
 // Enabled lists the enabled events; element 0 is the default continuation.
+//
+// Default: launch a payment that is due; else deliver the oldest message that is not
+// on a frozen wire; else (nothing deliverable) tick until two ticks changed nothing;
+// then unfreeze; then resolve an accepted hold invoice; else the execution is over.
 func (w *c08World) Enabled() []string {
 	if w.dead != "" {
 		return nil
@@ -839,15 +876,25 @@ func (w *c08World) Enabled() []string {
 			return []string{fmt.Sprintf("pay%d", p.idx)}
 		}
 	}
-	var acts []string
-	// deliveries, oldest head first
+	used := w.devUsed + w.faultsUsed
+	canDev := w.devUsed < w.scn.Dev && used < w.scn.total()
+	canFault := w.faultsUsed < w.scn.Faults && used < w.scn.total()
+	canReorder := canDev && !w.scn.OnlyFreeze
+
+	// deliverable heads, oldest first
 	w.mu.Lock()
 	type hd struct{ wi, step int }
 	var heads []hd
+	frozenLoad := 0
 	for wi := range w.wires {
-		if len(w.wires[wi]) > 0 {
-			heads = append(heads, hd{wi, w.wires[wi][0].step})
+		if len(w.wires[wi]) == 0 {
+			continue
 		}
+		if wi == w.frozen {
+			frozenLoad = len(w.wires[wi])
+			continue
+		}
+		heads = append(heads, hd{wi, w.wires[wi][0].step})
 	}
 	w.mu.Unlock()
 	sort.SliceStable(heads, func(i, j int) bool {
@@ -856,38 +903,69 @@ func (w *c08World) Enabled() []string {
 		}
 		return heads[i].wi < heads[j].wi
 	})
-	for _, h := range heads {
-		acts = append(acts, "d:"+c08WireName[h.wi])
-	}
 	unlaunched := false
 	for _, p := range w.pays {
 		if !p.launched {
 			unlaunched = true
 		}
 	}
-	// hold resolutions
 	var holds []string
 	for _, p := range w.pays {
 		if p.launched && !p.resolved && (p.Kind == "holdsettle" || p.Kind == "holdcancel") && w.invoiceState(p) == "accepted" {
 			holds = append(holds, fmt.Sprintf("hold%d", p.idx))
 		}
 	}
-	if len(heads) == 0 {
-		switch {
-		case w.idle < 2 || unlaunched:
-			acts = append(acts, "T")
-			acts = append(acts, holds...)
-		case len(holds) > 0:
-			acts = append(acts, holds...)
-			acts = append(acts, "T")
-		default:
-			return nil // terminal
+	var def string
+	var devs []string
+	switch {
+	case len(heads) > 0:
+		def = "d:" + c08WireName[heads[0].wi]
+		for _, h := range heads[1:] {
+			if canReorder {
+				devs = append(devs, "d:"+c08WireName[h.wi])
+			}
 		}
-	} else {
-		acts = append(acts, "T")
-		acts = append(acts, holds...)
+		if canReorder {
+			devs = append(devs, "T")
+			devs = append(devs, holds...)
+		}
+		if w.frozen >= 0 && canDev {
+			devs = append(devs, "un:"+c08WireName[w.frozen])
+		}
+	case w.idle < 2 || unlaunched:
+		def = "T"
+		if canReorder {
+			devs = append(devs, holds...)
+		}
+		if w.frozen >= 0 && canDev {
+			devs = append(devs, "un:"+c08WireName[w.frozen])
+		}
+	case w.frozen >= 0:
+		def = "un:" + c08WireName[w.frozen]
+		if canReorder {
+			devs = append(devs, holds...)
+		}
+	case len(holds) > 0:
+		def = holds[0]
+		if canReorder {
+			devs = append(devs, holds[1:]...)
+			devs = append(devs, "T")
+		}
+	default:
+		return nil // terminal
 	}
-	if w.faultsUsed < w.scn.Faults {
+	_ = frozenLoad
+	if w.scn.Freeze && canDev && w.frozen < 0 {
+		w.mu.Lock()
+		for wi := range w.wires {
+			if len(w.wires[wi]) > 0 {
+				devs = append(devs, "fz:"+c08WireName[wi])
+			}
+		}
+		w.mu.Unlock()
+	}
+	acts := append([]string{def}, devs...)
+	if canFault {
 		acts = append(acts, "cut:AB", "cut:BC")
 		if !w.scn.NoRestart {
 			acts = append(acts, "rb")
@@ -926,6 +1004,21 @@ func (w *c08World) Do(a string) (err error) {
 			w.dead = "panic"
 		}
 	}()
+	// classify the event against the budgets before performing it
+	en := w.Enabled()
+	allowed := false
+	for _, e := range en {
+		if e == a {
+			allowed = true
+		}
+	}
+	if !allowed {
+		return fmt.Errorf("event %s is not enabled here (enabled: %v)", a, en)
+	}
+	isFault := strings.HasPrefix(a, "cut:") || a == "rb"
+	if a != en[0] && !isFault {
+		w.devUsed++
+	}
 	w.mu.Lock()
 	w.step++
 	w.mu.Unlock()
@@ -933,6 +1026,21 @@ func (w *c08World) Do(a string) (err error) {
 	w.hist = append(w.hist, a)
 	before := ""
 	switch {
+	case strings.HasPrefix(a, "fz:") || strings.HasPrefix(a, "un:"):
+		wi := -1
+		for i, n := range c08WireName {
+			if n == a[3:] {
+				wi = i
+			}
+		}
+		if wi < 0 {
+			return fmt.Errorf("bad event %s", a)
+		}
+		if a[0] == 'f' {
+			w.frozen = wi
+		} else {
+			w.frozen = -1
+		}
 	case strings.HasPrefix(a, "pay"):
 		var k int
 		fmt.Sscanf(a, "pay%d", &k)
@@ -984,11 +1092,15 @@ func (w *c08World) Do(a string) (err error) {
 		if a == "cut:BC" {
 			pair = 1
 		}
+		if w.frozen/2 == pair && w.frozen >= 0 {
+			w.frozen = -1 // the slow connection is gone
+		}
 		if err := w.cut(pair); err != nil {
 			w.dead = err.Error()
 		}
 	case a == "rb":
 		w.faultsUsed++
+		w.frozen = -1
 		if err := w.restartBob(); err != nil {
 			w.dead = err.Error()
 		}
@@ -999,7 +1111,7 @@ func (w *c08World) Do(a string) (err error) {
 	w.scanNew()
 	w.stepOracle()
 	o := w.observe()
-	if a == "T" && w.pending() == 0 && before == w.obsCore() {
+	if a == "T" && w.deliverable() == 0 && before == w.obsCore() {
 		w.idle++
 	} else {
 		w.idle = 0
@@ -1103,7 +1215,7 @@ func (w *c08World) observe() string {
 func (w *c08World) Key() string {
 	var b strings.Builder
 	b.WriteString(w.observe())
-	fmt.Fprintf(&b, "|f%d i%d", w.faultsUsed, w.idle)
+	fmt.Fprintf(&b, "|f%d d%d z%d i%d", w.faultsUsed, w.devUsed, w.frozen, w.idle)
 	for _, p := range w.pays {
 		fmt.Fprintf(&b, " %v%v%v%v%v", p.launched, p.resolved, p.bobSettledIn, p.bobFailedIn, p.preimageAtBob)
 		if !p.launched {
